@@ -81,6 +81,8 @@ FIXES = [
     ('51-C11-iterfit-requiren-counts-last-point.patch', 'C11', 'C10.REQUIREN'),
     ('52-C16-number-of-fibers-scalar-slot.patch', 'C16', 'C16.SCALAR-SLOT'),
     ('53-C16-latest-mjd-location-keywords-only.patch', 'C16', 'C16.KW-FORWARD'),
+    ('54-C08-placed-float.patch', 'C08', 'C08.COVER'),
+    ('55-C17-skymask-signext.patch', 'C17', 'C17.SKY-WIDTH'),
 ]
 
 
